@@ -494,6 +494,99 @@ fn checker_mode(seed: u64) -> i32 {
     0
 }
 
+/// C20, the panic path: one thread's closure updates the value and then panics while other
+/// threads are blocked in `apply` on the same lock. Nobody may hang; calls that return do so
+/// with their closure's value and fit the chain of updates; once the panicking call is over no
+/// later closure runs on what it left behind as if nothing had happened.
+fn poison_mode(seed: u64) -> i32 {
+    use essential_lock::StdLock;
+    use std::sync::atomic::{AtomicBool, AtomicU64, Ordering};
+    std::panic::set_hook(Box::new(|_| {}));
+    let mut rng = Rng(seed);
+    let n_threads = 3 + rng.below(2) as usize;
+    let lock = Arc::new(StdLock::new(0u64));
+    let had_panic = Arc::new(AtomicBool::new(false));
+    let poison_over = Arc::new(AtomicBool::new(false));
+    let stash = Arc::new(AtomicU64::new(u64::MAX));
+    let mut bit = 0u32;
+    let mut handles = Vec::new();
+    for t in 0..n_threads {
+        let n = 1 + rng.below(3) as usize;
+        let steps: Vec<(u64, u64)> = (0..n)
+            .map(|_| {
+                bit += 1;
+                (1u64 << (bit - 1), rng.below(3))
+            })
+            .collect();
+        let long = rng.below(2) == 0;
+        let (lock, had_panic, poison_over, stash) = (lock.clone(), had_panic.clone(), poison_over.clone(), stash.clone());
+        handles.push(std::thread::spawn(move || -> Result<Vec<(u64, u64)>, String> {
+            let mut obs = Vec::new();
+            for (i, (d, spin)) in steps.iter().copied().enumerate() {
+                let poisoner = t == 0 && i + 1 == n;
+                let after = poison_over.load(Ordering::SeqCst);
+                let r = std::panic::catch_unwind(std::panic::AssertUnwindSafe(|| {
+                    lock.apply(|v| {
+                        let r = *v;
+                        for _ in 0..spin {
+                            std::thread::yield_now();
+                        }
+                        *v = r | d;
+                        if poisoner {
+                            stash.store(r, Ordering::SeqCst);
+                            had_panic.store(true, Ordering::SeqCst);
+                            if long {
+                                // long enough for the others to pile up behind the lock
+                                std::thread::sleep(std::time::Duration::from_millis(1500));
+                            }
+                            panic!("deliberate panic inside a closure, after its update");
+                        }
+                        r
+                    })
+                }));
+                match r {
+                    Ok(read) if after => {
+                        return Err(format!("a closure panicked after changing the value; a later apply ran on what it left ({read:#x}) as if nothing had happened"));
+                    }
+                    Ok(read) => obs.push((read, d)),
+                    Err(_) if poisoner => {
+                        obs.push((stash.load(Ordering::SeqCst), d));
+                        poison_over.store(true, Ordering::SeqCst);
+                    }
+                    Err(_) if had_panic.load(Ordering::SeqCst) => break, // refused: the lock is poisoned
+                    Err(_) => return Err("apply panicked although no closure had panicked".into()),
+                }
+            }
+            Ok(obs)
+        }));
+    }
+    let mut all = Vec::new();
+    for h in handles {
+        match h.join() {
+            Ok(Ok(o)) => all.extend(o),
+            Ok(Err(m)) => {
+                println!("VIOLATION-DETAIL poison seed={seed}: {m}");
+                return 1;
+            }
+            Err(_) => {
+                println!("VIOLATION-DETAIL poison seed={seed}: a thread died");
+                return 1;
+            }
+        }
+    }
+    all.sort_by_key(|o| o.0.count_ones());
+    let mut cur = 0u64;
+    for (read, d) in &all {
+        if *read != cur {
+            println!("VIOLATION-DETAIL poison seed={seed}: expected to read {cur:#x}, a closure read {read:#x} (update {d:#x}): lost or torn update");
+            return 1;
+        }
+        cur |= d;
+    }
+    println!("ok poison seed={seed} threads={n_threads} calls_that_returned={}", all.len());
+    0
+}
+
 /// C04: the same set delivered in another order, on the same real pool: same verdict, same
 /// total gas, same computed mutations per solution.
 fn perm_mode(seed: u64) -> i32 {
@@ -600,6 +693,7 @@ fn main() {
         Some("lock") => lock_mode(seed),
         Some("checker") => checker_mode(seed),
         Some("perm") => perm_mode(seed),
+        Some("poison") => poison_mode(seed),
         Some("vm") => vm_mode(seed),
         _ => {
             eprintln!("usage: miri-real lock|checker <workload-seed>");
